@@ -10,6 +10,48 @@ CHECKS = {
         'note': NOTE,
         'technique': 'property-based testing: Hypothesis grammar strategies + round-trip/field oracle, exhaustive enumeration of finite sub-grammars',
     },
+    'C03': {
+        'text': 'Hypothesis-generated digit literals per culture (own writer for grouping/decimal marks, sign, 0-6 fraction digits, carriers incl. '
+                'ambiguity-filter phrases, a quarter of the cases on a worker thread) against a Decimal oracle rounded to 15 significant digits, '
+                'number and percentage model; thorough adds exhaustive 0..9999 per culture. Infinite domain, sampled: exploration.',
+        'note': NOTE, 'technique': 'property-based testing: Hypothesis literal grammar + stdlib Decimal oracle'},
+    'C04': {
+        'text': 'Number-to-words functions written for the harness (nine languages) are the inverse oracle: exhaustive 0..9999 (en quick, all '
+                'cultures thorough) + Hypothesis integers below the culture bound biased to powers of ten, all-nines and teen groups; cardinal and '
+                'ordinal (en, zh, ja) models; known classes are narrow predicates in known_findings.json.',
+        'note': NOTE, 'technique': 'property-based testing: inverse (number-to-words) oracle, exhaustive below 10^4 + Hypothesis sampling'},
+    'C05': {
+        'text': 'Exhaustive enumeration of every prefix/suffix table entry wired into every registered unit model (14,287 entries) with a differential '
+                'value oracle (number model) and first-wins unit binding; Hypothesis amounts for every main/fraction currency pair. Finite tables are '
+                'enumerated completely (exhaustive), the compound amounts are sampled.',
+        'note': NOTE, 'technique': 'exhaustive enumeration of finite tables + differential oracle; Hypothesis for compound currency amounts'},
+    'C13': {
+        'text': 'Exhaustive boundary-octet IPv4 grid and per-position 0..255 sweep, Hypothesis over 2^32 / 2^128 / GUID layouts with own writers, '
+                'near-miss invalid addresses (soundness via stdlib ipaddress), grammar-generated e-mail/URL/hashtag/mention/phone literals.',
+        'note': NOTE, 'technique': 'property-based testing: generated literals + stdlib ipaddress oracle, exhaustive boundary grid'},
+    'C15': {
+        'text': 'Hypothesis TIMEX/reference cases for TimexResolver against stdlib calendar arithmetic; generated candidate/constraint sets for '
+                'TimexRangeResolver against a validity predicate (soundness always, completeness for one date range and weekday candidates); a call '
+                'that does not return is a violation (watchdog + confirmation replay).',
+        'note': NOTE, 'technique': 'property-based testing: Hypothesis generators + stdlib datetime oracle / validity predicate, watchdog for non-termination'},
+    'C16': {
+        'text': 'Exhaustive strings up to length 5/6 over a small alphabet for both tokenizers and exhaustive (query, phrase) pairs for the matcher, plus '
+                'Hypothesis dictionaries (list, list+ids, dict forms) and queries; oracles: token invariants, reference tokenizers, naive reference matcher.',
+        'note': NOTE, 'technique': 'property-based testing: differential against reference tokenizer/naive matcher, exhaustive for tiny sizes'},
+    'C18': {
+        'text': 'Finite domain enumerated completely: every definition of every generated resource module is compared with what the repository\'s own '
+                'generator (run with a vendored pure-Python ruamel.yaml) produces from Patterns/*.yaml. Differential, exhaustive over the 3,777 definitions.',
+        'note': NOTE + ' The generator itself is the oracle (as the property states): a change to the generator that is also regenerated into the modules is not visible to this check.',
+        'technique': 'exhaustive differential enumeration against the repository\'s resource generator'},
+    'C19': {
+        'text': 'Finite corpus enumerated with the repository\'s own parameterisation and comparison code (pytest/xdist subprocess from the working tree with '
+                'shims); every Python-supported spec case is one case, failures become VIOLATION lines with node-id replay files.',
+        'note': NOTE + ' pytest, xdist and the repository test runners are trusted.',
+        'technique': 'exhaustive differential enumeration of the Specs corpus through the repository test runners'},
+    'C20': {
+        'text': 'Every alternative of TrueRegex/FalseRegex x letter case x 40 surroundings exhaustively, plus Hypothesis strings (random case, fillers, '
+                'neutral pool, both polarities) against a polarity/span/score oracle.',
+        'note': NOTE, 'technique': 'property-based testing: exhaustive alternatives x surroundings + Hypothesis sentence generator'},
 }
 _PENDING = 'check not built yet in this session (under construction; the technique applies)'
 NOT_APPLICABLE = {('C%02d' % i): _PENDING for i in range(1, 21)}
